@@ -25,7 +25,6 @@ import (
 	"path/filepath"
 	"reflect"
 	"runtime"
-	"runtime/debug"
 	"sort"
 	"strings"
 	"sync"
@@ -97,24 +96,24 @@ func (s *c18Rec) Save(ctx context.Context, st state.ClusterState) error {
 // ---------------------------------------------------------------- world
 
 type c18World struct {
-	name      string
-	menu      []c18Cmd
-	enc       [][]byte // command.Encode of every menu command
-	labels    []string
-	byLabel   map[string]int
-	baseImage []byte // persisted image after the preamble (nil: no state file)
-	baseState state.ClusterState // state.Decode(baseImage), computed once
+	name            string
+	menu            []c18Cmd
+	enc             [][]byte // command.Encode of every menu command
+	labels          []string
+	byLabel         map[string]int
+	baseImage       []byte             // persisted image after the preamble (nil: no state file)
+	baseState       state.ClusterState // state.Decode(baseImage), computed once
 	allRestartModes bool
-	baseIndex uint64 // raft index of the last preamble entry
-	file      bool   // real statefile.Store on tmpfs instead of the memory store
-	dirs      chan string
+	baseIndex       uint64 // raft index of the last preamble entry
+	file            bool   // real statefile.Store on tmpfs instead of the memory store
+	dirs            chan string
 
-	mu        sync.Mutex
-	outcomes  map[string]int64 // kind:class:reason -> count (last step of every log)
-	changedBy map[string]int64 // kind -> changed results
+	mu                                                                             sync.Mutex
+	outcomes                                                                       map[string]int64 // kind:class:reason -> count (last step of every log)
+	changedBy                                                                      map[string]int64 // kind -> changed results
 	nLogs, nPartitions, nRestarts, nRestartsPersisted, nReapplied, nAlreadyApplied atomic.Int64
-	nBatchTwoChanged, nBatchRollbackAfterChange, nUpdated, nPreInitRejected         atomic.Int64
-	nFileSaves                                                                    atomic.Int64
+	nBatchTwoChanged, nBatchRollbackAfterChange, nUpdated, nPreInitRejected        atomic.Int64
+	nFileSaves                                                                     atomic.Int64
 }
 
 func (w *c18World) newStore(image []byte, dir string) *c18Rec {
@@ -778,7 +777,6 @@ func TestVerifC18(t *testing.T) {
 	// spans stay mapped and are reused (no page-fault / madvise churn).
 	ballast := make([]byte, 384<<20)
 	defer runtime.KeepAlive(ballast)
-	_ = debug.SetGCPercent
 	defer func() {
 		for _, d := range c18Cleanup {
 			os.RemoveAll(d)
